@@ -299,7 +299,10 @@ EXTRA = ['C', 'CC', 'C=C', 'C#N', 'c1ccccc1', 'C1CC1', 'C%10CC%10', 'C12CC1C2', 
          'C>C', 'C>>>C', '', ' ', 'C C', 'C |^1:5|', 'C |f:0.1|', 'Xx', 'C[', 'C]', '[]', '[C', '[CH2+-]', 'c', 'cc', 'c1ccc1', 'C1CCC0', 'C0CC0', 'C%00', 'C%100CC%100', 'C%10%11CC%10C%11', 'Clc1ccccc1Br',
          'BrBr', 'B', 'Bl', 'Cr', '[Cr]', 'Sc', '[Sc]', 'CO.(C)', 'C=(C)C', 'C(=O)', 'C(=O)(O)', 'C1=CC=C1', 'C:C', 'c:c', 'c1:c:c:c:c:c1', 'C-C', 'c-c', 'c1ccccc1-c1ccccc1', 'C/C', 'C/=C', 'C/C=C', 'C=C/C',
          'C#C#C', '[CH5]', '[CH0]', 'C[N+](C)(C)C', '[N+](=O)[O-]', 'CN(=O)=O', '[C-]#[O+]', '[H][H]', '[H+]', '[H-]', '[2H]', 'C(F)(F)(F)(F)F', '[SiH4]', '[Si]', 'p1cccc1', 'o1cccc1', 's1cccc1', 'b1ccccc1',
-         '[se]1cccc1', '[te]1cccc1', '[as]1ccccc1', 'C1CC2', 'C12CC1', 'C1(CC1', 'C1CC1)', 'C1C(C1', '[C@@](F)(Cl)(Br)I', '[C@@@H](F)(Cl)Br', 'C[C@@H]', '[C@H]', 'N1CC1(C)', 'C1.C1', 'C1.CC1', 'CC.1C1']
+         '[se]1cccc1', '[te]1cccc1', '[as]1ccccc1', 'C1CC2', 'C12CC1', 'C1(CC1', 'C1CC1)', 'C1C(C1', '[C@@](F)(Cl)(Br)I', '[C@@@H](F)(Cl)Br', 'C[C@@H]', '[C@H]', 'N1CC1(C)', 'C1.C1', 'C1.CC1', 'CC.1C1',
+         # atom maps: repeated numbers inside one molecule, across molecules and roles, gaps, large numbers; mapped atoms in every role
+         '[CH3:1][CH2:1]O', '[CH3:1][CH2:1]O>>CC=O', '[CH3:1][CH2:1]O>>[CH3:1][CH:1]=O', '[CH3:1]C.[CH3:1]O>>CC', '[CH3:1][CH2:2]O>>[CH3:1][CH:2]=O', '[CH3:7][CH2:3]O>[OH2:7]>[CH3:3][CH:7]=O',
+         '[CH3:1][CH2:1][OH:1]>>[CH3:1][CH:1]=[O:1]', '[CH3:999]C', '[CH3:0]C', '[CH3:2][CH3:1]', 'C[CH2:5]O>>C[CH:5]=O', '[CH3:1]C>>', '>>[CH3:1]C', '>[CH3:1][CH3:1]>']
 
 
 def run_extra(shard):
